@@ -299,6 +299,13 @@ class History:
                 if not h.c.connected:
                     return self.fail('connected is False after a successful '
                                      'connect()', {'op': op})
+                # whatever way the previous connection ended (also with
+                # `connected` already False: last namespace ended by the
+                # server, failed connect(), CONNECT_ERROR), nothing of it may
+                # be visible now
+                self.check_no_survivors()
+                if self.failed:
+                    return
             else:
                 self.up = False
                 if exc is None or type(exc).__name__ != 'ConnectionError':
@@ -468,6 +475,8 @@ class History:
         connected_pick = self.accepted and rng.random() < 0.8
         ns = rng.choice(sorted(self.accepted)) if connected_pick else \
             rng.choice(POOL)
+        if getattr(self, 'force_ns', None) is not None:
+            ns = self.force_ns
         was = ns in self.accepted
         op = ['server_disconnect', ns, was]
         self.ops.append(op)
@@ -621,6 +630,8 @@ class History:
         self.ops.append(['partial_binary', ns])
         h.server_send(R.EVENT, ns, None, ['ping', b'a', b'b'], partial=2)
         self.ctx.count('partial_binary_then_end')
+        # (a server may not send any other frame while attachments are owed,
+        # so the only ways for the connection to end here are transport-level)
         self.end_all(self.rng.choice(['lose', 'lose', 'server_close',
                                       'client_disconnect']))
 
